@@ -98,6 +98,27 @@ def int_binop(it, op, a, b, node):
     it.outside(f"int operator {op.__name__}", node)
 
 
+def str_term(x):
+    """term of sort Str for a symbolic / concrete string or str(int)"""
+    from .values import SStr
+
+    if isinstance(x, SStr):
+        return x.term
+    if isinstance(x, str):
+        if x.isdigit() and str(int(x)) == x:
+            return sym.S_NUM(z3.IntVal(int(x)))  # str(n) of a concrete n
+        import re
+
+        m = re.match(r"^(.*[^0-9])(0|[1-9][0-9]*)$", x)
+        if m:
+            # "sig12" is the concatenation of "sig" and str(12) (a fact about strings)
+            return sym.S_CAT(sym.str_lit(m.group(1)), sym.S_NUM(z3.IntVal(int(m.group(2)))))
+        return sym.str_lit(x)
+    if isinstance(x, SFmt) and len(x.parts) == 1 and isinstance(x.parts[0], TextOf) and sym.is_intlike(x.parts[0].value):
+        return sym.S_NUM(sym.to_z3(sym.to_int(x.parts[0].value)))
+    return None
+
+
 def bool_binop(it, op, a, b, node):
     """& | ^ on two bools stays bool"""
     if op is ast.BitAnd:
@@ -119,6 +140,18 @@ def binop(it, op, a, b, node, inplace=False):
         if _is_bool(a) and _is_bool(b) and op in (ast.BitAnd, ast.BitOr, ast.BitXor):
             return bool_binop(it, op, a, b, node)
         return int_binop(it, op, a, b, node)
+    # uninterpreted strings / sets of names
+    from .values import SStr, SSet
+
+    def _numtext(x):
+        return isinstance(x, SFmt) and len(x.parts) == 1 and isinstance(x.parts[0], TextOf) and sym.is_intlike(x.parts[0].value)
+
+    if (isinstance(a, SStr) or isinstance(b, SStr) or (_numtext(b) and isinstance(a, str)) or (_numtext(a) and isinstance(b, str))) and op is ast.Add:
+        ta, tb = str_term(a), str_term(b)
+        if ta is not None and tb is not None:
+            return SStr(sym.S_CAT(ta, tb))
+    if isinstance(a, SSet) and isinstance(b, SSet) and op is ast.BitOr:
+        return SSet(z3.SetUnion(a.term, b.term))
     # text
     if isinstance(a, (str, SFmt)) and isinstance(b, (str, SFmt)) and op is ast.Add:
         if isinstance(a, str) and isinstance(b, str):
@@ -313,6 +346,11 @@ def compare(it, op, a, b, node):
     if op is ast.In or op is ast.NotIn:
         r = contains(it, b, a, node)
         return r if op is ast.In else sym.Not(r)
+    if op in (ast.Eq, ast.NotEq) and (type(a).__name__ == "SStr" or type(b).__name__ == "SStr"):
+        ta, tb = str_term(a), str_term(b)
+        if ta is None or tb is None:
+            return op is ast.NotEq
+        return (ta == tb) if op is ast.Eq else (ta != tb)
     if sym.is_intlike(a) and sym.is_intlike(b):
         if op in (ast.Eq, ast.NotEq):
             r = sym.eq(a, b)
@@ -378,6 +416,15 @@ def _as_cond(it, v, node):
 
 
 def contains(it, container, item, node):
+    from .values import SSet
+
+    if isinstance(container, SSet):
+        t = str_term(item)
+        if t is None:
+            it.outside("membership of a non-string in a set of names", node)
+        return z3.IsMember(t, container.term)
+    if isinstance(container, dict) and isinstance(item, (SObj, SCls)):
+        return any(k is item for k in container)  # identity-keyed lookup
     if isinstance(container, (tuple, list)):
         conds = []
         for x in container:
@@ -464,6 +511,12 @@ def getitem(it, base, key, node):
         return it.call(m, [key], {}, node)
     if isinstance(base, Opaque):
         return Opaque(f"{base.tag}[]", base, key)
+    if isinstance(base, SFmt) and isinstance(key, slice) and key.start is None and key.step is None and isinstance(key.stop, int) and key.stop < 0:
+        # text[:-k]: drop k characters of the trailing literal piece
+        last = base.parts[-1] if base.parts else None
+        if isinstance(last, str) and len(last) >= -key.stop:
+            return SFmt(base.parts[:-1] + [last[: key.stop]])
+        it.outside("slicing symbolic text", node)
     m = _repo_dunder(it, base, "__getitem__")
     if m is not None:
         return it.call(m, [key], {}, node)
